@@ -52,7 +52,7 @@ package timeout
 //@   ensures [C07.exclusive] (result.Result == inner.Result && result.Error == inner.Error) || (result.Error == ErrExceeded)
 //@   ensures [C07.timeout_is_failure] result.Error == ErrExceeded ==> !result.Success
 //@   ensures [C07.inner_unchanged] (inner.Error == nil || !ufb("errors.Is", inner.Error, ErrExceeded)) && result.Error != ErrExceeded ==> result.Result == inner.Result && result.Error == inner.Error && result.Success && result.Done && result.SuccessAll == inner.SuccessAll
-//@   ensures [C07.listener_not_from_caller] ncalls(e.onTimeoutExceeded) == 0
+//@   ensures [C07.listener_not_from_caller+C16.timeout.listener_only_for_the_own_timer] ncalls(e.onTimeoutExceeded) == 0
 //@   ensures [C07.caller_never_cancels_the_attempt+C18.completed_attempt_context_stays_live+C08.only_the_timer_cancels] ncalls(child.Cancel) == 0
 //@   havoc
 //@   modifies calls(innerFn), calls(exec.CopyForCancellable), calls(e.onFailure), calls(e.onSuccess), calls(child.CopyWithResult)
